@@ -23,9 +23,12 @@ type ValOpts struct {
 	Embedded   bool
 	FixedZone  bool // time.Time in FixedZone locations
 	BigPtrBias bool // bias towards pointer-held big numbers (C18)
-	NoNaN      bool
-	Avoid      map[string]bool
-	Excluded   func(string)
+	// IfaceContainers lets interface{} positions hold structs, pointers to structs, slices and maps
+	// (marshal-side properties only: unmarshaling cannot restore the dynamic type)
+	IfaceContainers bool
+	NoNaN           bool
+	Avoid           map[string]bool
+	Excluded        func(string)
 
 	inStructField bool // the value being drawn is directly a struct field (omitted when empty)
 }
@@ -401,6 +404,22 @@ func GenVal(t *rapid.T, o *ValOpts, s *TypeSpec, depth int) *Val {
 func genIfaceVal(t *rapid.T, o *ValOpts, depth int, allowNil bool) *Val {
 	if allowNil && rapid.IntRange(0, 5).Draw(t, "if.nil") == 0 {
 		return &Val{}
+	}
+	if o.IfaceContainers && depth < o.MaxDepth && rapid.IntRange(0, 2).Draw(t, "if.container") == 0 {
+		no := *o
+		no.NoNaN = true
+		var dyn *TypeSpec
+		switch rapid.IntRange(0, 3).Draw(t, "if.ckind") {
+		case 0:
+			dyn = genStruct(t, &no, depth+1)
+		case 1:
+			dyn = &TypeSpec{K: "ptr", Elem: genStruct(t, &no, depth+1)}
+		case 2:
+			dyn = &TypeSpec{K: "slice", Elem: &TypeSpec{K: "string"}}
+		default:
+			dyn = &TypeSpec{K: "map", Key: &TypeSpec{K: "string"}, Elem: &TypeSpec{K: "int64"}}
+		}
+		return &Val{Dyn: dyn, P: GenVal(t, &no, dyn, depth+1)}
 	}
 	kinds := []string{"bool", "int", "int64", "uint64", "int8", "uint16", "float64", "string", "string"}
 	dyn := &TypeSpec{K: pick(t, "if.kind", kinds)}
